@@ -1,6 +1,65 @@
-/- C07 — placeholder; theorems follow -/
-import SC.Buffer
+/-
+C07 — a buffered flush never silently overwrites a file changed by someone else.
+-/
+import SC.Lemmas.Buffer
+import SC.Lemmas.BufCap
 namespace SC.Props
-open SC
-theorem C07_placeholder : True := trivial
+open SC SC.B
+
+/-- C07 (a), serialized strategy: whenever a collection is flushed (at context exit, or forced
+by the capacity) while its buffered copy differs from what was read and the file's metadata
+differs from the metadata recorded when the file entered the buffer, the flush raises
+`MetadataError` and neither the content nor the metadata of ANY file changes. -/
+theorem C07_conflict_raises_and_preserves_serialized (s : B.State) (oi : Nat) (o : B.Obj) (force : Bool)
+    (e : B.Entry) (hb : (!(s.isBuffered o) || force) = true) (he : s.entry o.res = some e)
+    (hm : Tr.same e.contents e.hash = false) (hc : e.fmeta ≠ s.stat o.res) :
+    (flushSer s oi o force).2 = some (.other "MetadataError") ∧
+    (flushSer s oi o force).1.stores = s.stores ∧ (flushSer s oi o force).1.metas = s.metas :=
+  let h := flushSer_conflict s oi o force e hb he hm hc
+  ⟨h.1, h.2.1, h.2.2.1⟩
+
+/-- C07 (a), shared-memory strategy. -/
+theorem C07_conflict_raises_and_preserves_memory (s : B.State) (oi : Nat) (o : B.Obj) (force : Bool)
+    (e : B.Entry) (hb : (!(s.isBuffered o) || force) = true) (he : s.entry o.res = some e)
+    (hm : e.modified = true) (hc : e.fmeta ≠ s.stat o.res) :
+    (flushMem s oi o force).2 = some (.other "MetadataError") ∧
+    (flushMem s oi o force).1.stores = s.stores ∧ (flushMem s oi o force).1.metas = s.metas :=
+  flushMem_conflict s oi o force e hb he hm hc
+
+/-- C07 (b): a file whose buffered copy was only read never raises and is never written,
+whatever happened to it on disk (both strategies). -/
+theorem C07_readonly_silent_serialized (s : B.State) (oi : Nat) (o : B.Obj) (force : Bool) (e : B.Entry)
+    (he : s.entry o.res = some e) (hm : Tr.same e.contents e.hash = true) :
+    (flushSer s oi o force).2 = none ∧
+    (flushSer s oi o force).1.stores = s.stores ∧ (flushSer s oi o force).1.metas = s.metas :=
+  flushSer_readonly s oi o force e he hm
+theorem C07_readonly_silent_memory (s : B.State) (oi : Nat) (o : B.Obj) (force : Bool) (e : B.Entry)
+    (hb : (!(s.isBuffered o) || force) = true) (he : s.entry o.res = some e) (hm : e.modified = false) :
+    (flushMem s oi o force).2 = none ∧
+    (flushMem s oi o force).1.stores = s.stores ∧ (flushMem s oi o force).1.metas = s.metas :=
+  flushMem_readonly s oi o force e hb he hm
+
+/-- C07 (d), settings: leaving a backend-wide context restores the capacity saved at entry and
+pops the stack in every state — in particular when the exit raises `BufferedError`. -/
+theorem C07_settings_restored (s : B.State) (saved : Option Nat) (rest : List (Option Nat))
+    (hst : s.capStack = saved :: rest) :
+    (exitCls s).1.capStack = rest ∧
+    (exitCls s).1.capacity = (match saved with | some c => c | none => s.capacity) ∧
+    (exitCls s).1.ctx = s.ctx - 1 :=
+  exitCls_restores s saved rest hst
+
+/-- non-vacuity + the whole scenario on the machine: file 0 modified in a backend-wide context,
+rewritten from outside, exit raises BufferedError naming file 0, the outside content stays,
+the buffer is empty and the capacity is what it was. -/
+example :
+    let fam : Fam := ⟨[.requireStringKey, .jsonFormat], [.requireStringKey, .jsonFormat]⟩
+    let s0 := run (B.State.init fam .sharedMemory [])
+      [.openObj true 0 none, .enterCls (some 500), .call (.root 0) (.dSetitem (.s "a") (.leaf (.int 1))),
+       .ext 0 (.dict () [(.s "x", .leaf (.int 9))])]
+    let r := exitCls s0
+    r.2.isSome = true ∧ r.1.entries.length = 0 ∧ r.1.size = 0 ∧
+    r.1.capacity = defaultCapacity .sharedMemory ∧
+    (match r.1.store 0 with | some d => Tr.same d (.dict () [(.s "x", .leaf (.int 9))] : J) | none => false) = true := by
+  decide
+
 end SC.Props
